@@ -149,6 +149,7 @@ impl Future for Pending {
             }
             Ok(()) => Poll::Ready(Ok(Response {
                 status: plan.status,
+                content_length: plan.content_length,
                 body: Body {
                     fragments: plan.fragments.into_iter().collect(),
                     end: plan.end,
@@ -166,6 +167,7 @@ impl Future for Pending {
 
 pub struct Response {
     status: u16,
+    content_length: Option<u64>,
     body: Body,
 }
 
@@ -176,6 +178,10 @@ impl fmt::Debug for Response {
 }
 
 impl Response {
+    /// the announced Content-Length, if any
+    pub fn content_length(&self) -> Option<u64> {
+        self.content_length
+    }
     pub fn status(&self) -> StatusCode {
         StatusCode::from_u16(self.status).unwrap_or(StatusCode::OK)
     }
